@@ -107,6 +107,20 @@ def scenarios(g, rng):
         return [lambda d=d: observe(pool.PoolValidator(shared, rules_set_registry=rr, schema_registry=sr), d) for d in ds]
     out.append(Scenario("shared-registries", registry_and_cache))
 
+    def shared_invalid():
+        # one ill-formed schema object submitted by two threads: each alone is rejected, so each must be rejected
+        reset_process_state()
+        bad = {'name': {'type': 'string', 'maxlength': 'ten'}, 'n': {'type': 'list', 'schema': {'type': 'nosuchtype'}}}
+
+        def attempt(d):
+            try:
+                v = pool.PoolValidator(bad)
+            except cerberus.SchemaError:
+                return "rejected"
+            return ("accepted",) + tuple(observe(v, d)[:1])
+        return [lambda d=d: attempt(d) for d in docs[:2]]
+    out.append(Scenario("shared-invalid-schema", shared_invalid))
+
     def earlier_and_constructing():
         reset_process_state()
         shared = copy.deepcopy(canon)
@@ -140,7 +154,7 @@ def make_schedule(rng, traces, k):
     lens = [len(t) for t in traces]
     hot = [[j for j, w in enumerate(t) if isinstance(w, tuple) and w[0] in ('schema.py', 'utils.py')] for t in traces]
     # the lines that write shared objects: in-place expansion (schema.py 122-250), lazy class creation (37-50), cache insertions
-    hotter = [[j for j, w in enumerate(t) if isinstance(w, tuple) and w[0] == 'schema.py' and (37 <= w[1] <= 50 or 122 <= w[1] <= 250)]
+    hotter = [[j for j, w in enumerate(t) if isinstance(w, tuple) and w[0] == 'schema.py' and (37 <= w[1] <= 50 or 122 <= w[1] <= 320)]
               for t in traces]
     sch = []
     done = [0] * n
@@ -196,7 +210,7 @@ def run(ctx):
             dist["skipped_" + sc.name] += 1
             continue
         n = len(traces)
-        hotter = [[j for j, w in enumerate(t) if isinstance(w, tuple) and w[0] == 'schema.py' and (37 <= w[1] <= 50 or 122 <= w[1] <= 250)]
+        hotter = [[j for j, w in enumerate(t) if isinstance(w, tuple) and w[0] == 'schema.py' and (37 <= w[1] <= 50 or 122 <= w[1] <= 320)]
                   for t in traces]
         plans = []
         # systematic: one preemption right after a line that writes shared state, the other thread(s) then run to completion
